@@ -1,0 +1,301 @@
+//go:build verif
+// +build verif
+
+package xpath
+
+// Observation hooks for the verification harness in /verif.  This file only
+// adds code; it is compiled only with `-tags verif`.
+
+import (
+	"fmt"
+	"math"
+	"reflect"
+	"runtime"
+	"strings"
+)
+
+func verifEsc(s string) string {
+	var b strings.Builder
+	for i := 0; i < len(s); i++ {
+		c := s[i]
+		if (c >= 'a' && c <= 'z') || (c >= 'A' && c <= 'Z') || (c >= '0' && c <= '9') || c == '_' || c == '.' || c == '-' {
+			b.WriteByte(c)
+		} else {
+			fmt.Fprintf(&b, "%%%02X", c)
+		}
+	}
+	return b.String()
+}
+
+func verifDumpNode(n node, b *strings.Builder) {
+	if n == nil || reflect.ValueOf(n).Kind() == reflect.Ptr && reflect.ValueOf(n).IsNil() {
+		b.WriteString("_")
+		return
+	}
+	switch x := n.(type) {
+	case *rootNode:
+		b.WriteString("R(" + verifEsc(x.slash) + ")")
+	case *axisNode:
+		fmt.Fprintf(b, "A(%s,%d,%s,%s,%s,%v,%s,", verifEsc(x.AxisType), int(x.typeTest), verifEsc(x.Prefix), verifEsc(x.LocalName), verifEsc(x.Prop), x.hasNamespaceURI, verifEsc(x.namespaceURI))
+		verifDumpNode(x.Input, b)
+		b.WriteString(")")
+	case *filterNode:
+		b.WriteString("F(")
+		verifDumpNode(x.Input, b)
+		b.WriteString(",")
+		verifDumpNode(x.Condition, b)
+		b.WriteString(")")
+	case *functionNode:
+		fmt.Fprintf(b, "C(%s,%s", verifEsc(x.Prefix), verifEsc(x.FuncName))
+		for _, a := range x.Args {
+			b.WriteString(",")
+			verifDumpNode(a, b)
+		}
+		b.WriteString(")")
+	case *operatorNode:
+		fmt.Fprintf(b, "O(%s,", verifEsc(x.Op))
+		verifDumpNode(x.Left, b)
+		b.WriteString(",")
+		verifDumpNode(x.Right, b)
+		b.WriteString(")")
+	case *operandNode:
+		switch v := x.Val.(type) {
+		case float64:
+			fmt.Fprintf(b, "N(%016x)", math.Float64bits(v))
+		case string:
+			b.WriteString("S(" + verifEsc(v) + ")")
+		default:
+			fmt.Fprintf(b, "X(%T)", x.Val)
+		}
+	case *variableNode:
+		fmt.Fprintf(b, "V(%s,%s)", verifEsc(x.Prefix), verifEsc(x.Name))
+	case *groupNode:
+		b.WriteString("G(")
+		verifDumpNode(x.Input, b)
+		b.WriteString(")")
+	default:
+		fmt.Fprintf(b, "?(%T)", n)
+	}
+}
+
+// VerifParseDump parses expr exactly as Compile does (same panics turned into
+// errors) and renders the parse tree unambiguously.
+func VerifParseDump(expr string, namespaces map[string]string) (out string, err error) {
+	defer func() {
+		if e := recover(); e != nil {
+			switch x := e.(type) {
+			case string:
+				err = fmt.Errorf("%s", x)
+			case error:
+				err = x
+			default:
+				err = fmt.Errorf("unknown panic")
+			}
+		}
+	}()
+	root := parse(expr, namespaces)
+	var b strings.Builder
+	verifDumpNode(root, &b)
+	return b.String(), nil
+}
+
+func verifFuncName(f interface{}) string {
+	name := runtime.FuncForPC(reflect.ValueOf(f).Pointer()).Name()
+	if i := strings.LastIndex(name, "xpath."); i >= 0 {
+		name = name[i+6:]
+	}
+	return name
+}
+
+func verifDumpQuery(q query, b *strings.Builder) {
+	if q == nil {
+		b.WriteString("_")
+		return
+	}
+	bo := func(v bool) string {
+		if v {
+			return "1"
+		}
+		return "0"
+	}
+	switch x := q.(type) {
+	case nopQuery:
+		b.WriteString("nop")
+	case *contextQuery:
+		b.WriteString("ctx")
+	case *absoluteQuery:
+		b.WriteString("abs")
+	case *ancestorQuery:
+		b.WriteString("anc(" + bo(x.Self) + ",")
+		verifDumpQuery(x.Input, b)
+		b.WriteString(")")
+	case *attributeQuery:
+		b.WriteString("attr(")
+		verifDumpQuery(x.Input, b)
+		b.WriteString(")")
+	case *childQuery:
+		b.WriteString("child(")
+		verifDumpQuery(x.Input, b)
+		b.WriteString(")")
+	case *cachedChildQuery:
+		b.WriteString("cchild(")
+		verifDumpQuery(x.Input, b)
+		b.WriteString(")")
+	case *descendantQuery:
+		b.WriteString("desc(" + bo(x.Self) + ",")
+		verifDumpQuery(x.Input, b)
+		b.WriteString(")")
+	case *followingQuery:
+		b.WriteString("foll(" + bo(x.Sibling) + ",")
+		verifDumpQuery(x.Input, b)
+		b.WriteString(")")
+	case *precedingQuery:
+		b.WriteString("prec(" + bo(x.Sibling) + ",")
+		verifDumpQuery(x.Input, b)
+		b.WriteString(")")
+	case *parentQuery:
+		b.WriteString("parent(")
+		verifDumpQuery(x.Input, b)
+		b.WriteString(")")
+	case *selfQuery:
+		b.WriteString("self(")
+		verifDumpQuery(x.Input, b)
+		b.WriteString(")")
+	case *filterQuery:
+		b.WriteString("filter(" + bo(x.NoPosition) + ",")
+		verifDumpQuery(x.Input, b)
+		b.WriteString(",")
+		verifDumpQuery(x.Predicate, b)
+		b.WriteString(")")
+	case *functionQuery:
+		b.WriteString("fn(" + verifFuncName(x.Func) + ",")
+		verifDumpQuery(x.Input, b)
+		b.WriteString(")")
+	case *transformFunctionQuery:
+		b.WriteString("tfn(" + verifFuncName(x.Func) + ",")
+		verifDumpQuery(x.Input, b)
+		b.WriteString(")")
+	case *constantQuery:
+		switch v := x.Val.(type) {
+		case float64:
+			fmt.Fprintf(b, "num(%016x)", math.Float64bits(v))
+		case string:
+			b.WriteString("str(" + verifEsc(v) + ")")
+		default:
+			fmt.Fprintf(b, "const(%T)", x.Val)
+		}
+	case *groupQuery:
+		b.WriteString("group(")
+		verifDumpQuery(x.Input, b)
+		b.WriteString(")")
+	case *logicalQuery:
+		b.WriteString("cmp(" + verifFuncName(x.Do) + ",")
+		verifDumpQuery(x.Left, b)
+		b.WriteString(",")
+		verifDumpQuery(x.Right, b)
+		b.WriteString(")")
+	case *numericQuery:
+		b.WriteString("arith(" + verifFuncName(x.Do) + ",")
+		verifDumpQuery(x.Left, b)
+		b.WriteString(",")
+		verifDumpQuery(x.Right, b)
+		b.WriteString(")")
+	case *booleanQuery:
+		b.WriteString("bool(" + bo(x.IsOr) + ",")
+		verifDumpQuery(x.Left, b)
+		b.WriteString(",")
+		verifDumpQuery(x.Right, b)
+		b.WriteString(")")
+	case *unionQuery:
+		b.WriteString("union(")
+		verifDumpQuery(x.Left, b)
+		b.WriteString(",")
+		verifDumpQuery(x.Right, b)
+		b.WriteString(")")
+	case *lastFuncQuery:
+		b.WriteString("lastq(")
+		verifDumpQuery(x.Input, b)
+		b.WriteString(")")
+	case *descendantOverDescendantQuery:
+		b.WriteString("dod(" + bo(x.MatchSelf) + ",")
+		verifDumpQuery(x.Input, b)
+		b.WriteString(")")
+	case *mergeQuery:
+		b.WriteString("merge(")
+		verifDumpQuery(x.Input, b)
+		b.WriteString(",")
+		verifDumpQuery(x.Child, b)
+		b.WriteString(")")
+	default:
+		fmt.Fprintf(b, "?(%T)", q)
+	}
+}
+
+// VerifQueryDump renders the structure of the query tree held by expr.
+func VerifQueryDump(expr *Expr) string {
+	var b strings.Builder
+	verifDumpQuery(expr.q, &b)
+	return b.String()
+}
+
+// VerifHashCode is the identity code the engine computes for the node n is
+// positioned on (n is not moved).
+func VerifHashCode(n NodeNavigator) uint64 {
+	return getHashCode(n.Copy())
+}
+
+// VerifCache gives access to a private loading cache.
+type VerifCache struct{ c *loadingCache }
+
+// VerifNewCache creates a loading cache with the given loader and capacity.
+func VerifNewCache(load func(key interface{}) (interface{}, error), capacity int) *VerifCache {
+	return &VerifCache{NewLoadingCache(load, capacity)}
+}
+
+// VerifRegexpCache wraps the package-level RegexpCache.
+func VerifRegexpCache() *VerifCache { return &VerifCache{RegexpCache} }
+
+// Get calls the cache's get.
+func (v *VerifCache) Get(key interface{}) (interface{}, error) { return v.c.get(key) }
+
+// Stats returns len(m), cap and reset, read under the cache's lock.
+func (v *VerifCache) Stats() (n, capacity, reset int) {
+	v.c.RLock()
+	defer v.c.RUnlock()
+	return len(v.c.m), v.c.cap, v.c.reset
+}
+
+// Keys returns the keys currently held.
+func (v *VerifCache) Keys() []interface{} {
+	v.c.RLock()
+	defer v.c.RUnlock()
+	var ks []interface{}
+	for k := range v.c.m {
+		ks = append(ks, k)
+	}
+	return ks
+}
+
+// Peek returns the stored value for key without loading.
+func (v *VerifCache) Peek(key interface{}) (interface{}, bool) {
+	v.c.RLock()
+	defer v.c.RUnlock()
+	x, ok := v.c.m[key]
+	return x, ok
+}
+
+// VerifDirty runs up to k Select steps directly on the query tree shared by
+// all evaluations of expr (not on a clone), leaving whatever iteration state
+// that produces behind.  The public API must be unaffected by it.
+func VerifDirty(expr *Expr, root NodeNavigator, k int) (steps int) {
+	defer func() { recover() }()
+	t := &NodeIterator{query: expr.q, node: root}
+	expr.q.Evaluate(t)
+	for i := 0; i < k; i++ {
+		if !t.MoveNext() {
+			break
+		}
+		steps++
+	}
+	return steps
+}
